@@ -111,7 +111,8 @@ pub open spec fn match_ok(srn: Seq<Tok>, arm_with_head: Seq<Tok>, ev: Seq<char>)
     bg(bt(bi(no_toks(), "match"@), srn), Delim::Brace, bt(bp(arm_with_head, ','), err_to_err(ev)))
 }
 
-pub open spec fn opt_seq(o: Option<TokenStream>) -> Seq<Tok> { match o { Some(t) => t@, None => no_toks() } }
+pub open spec fn opt_seq(o: Option<Seq<Tok>>) -> Seq<Tok> { match o { Some(t) => t, None => no_toks() } }
+pub open spec fn opt_tv(o: Option<TokenStream>) -> Option<Seq<Tok>> { match o { Some(t) => Some(t@), None => None } }
 
 /// C05 / C06 (transposing try macro, a step that is not the last): the next step is reached ONLY in the `else` of the
 /// failure test; the test looks at exactly the ACTIVE branches in branch order
@@ -134,7 +135,7 @@ pub open spec fn js_try_plain(step_toks: Seq<Tok>, ext: Seq<Tok>, srn: Seq<Tok>,
 /// the whole function.  `ext` is what extract_results_tuple printed for this step (names of the ACTIVE branches only).
 pub open spec fn join_steps_spec(
     is_try: bool, transpose: bool, last: bool, branch_count: int, depths: Seq<usize>, step: int,
-    step_toks: Seq<Tok>, next: Option<TokenStream>, ext: Seq<Tok>, vars: Seq<Ident>, srn: Seq<Tok>, v: Seq<Tok>,
+    step_toks: Seq<Tok>, next: Option<Seq<Tok>>, ext: Seq<Tok>, vars: Seq<Ident>, srn: Seq<Tok>, v: Seq<Tok>,
     fi: Seq<char>, ev: Seq<char>,
 ) -> Seq<Tok> {
     let n = depths.len() as int;
@@ -162,7 +163,7 @@ pub open spec fn join_steps_spec(
             };
         bt(bt(no_toks(), step_toks), fin)
     } else {
-        bt(bt(bt(no_toks(), step_toks), ext), match next { Some(t) => t@, None => all })
+        bt(bt(bt(no_toks(), step_toks), ext), match next { Some(t) => t, None => all })
     }
 }
 
@@ -269,4 +270,27 @@ pub open spec fn sj_spec(is_async: bool, is_spawn: bool, depths: Seq<usize>, ste
     if threads_here(is_async, is_spawn, depths, step) {
         bp(bg(bp(bt(bi(no_toks(), "let"@), srn), '='), Delim::Paren, bt(no_toks(), join_comma(joins_list(srn, depths, step, depths.len() as int)))), ';')
     } else { no_toks() }
+}
+
+// ---------------------------------------------------------------- C03 / C06: the steps are nested, each in the continuation of the one before
+
+/// what `generate_step` printed for a step (not under contract as a whole; a function of its arguments)
+pub uninterp spec fn gen_step_toks(jo: JoinOutput, step: usize, vars: Seq<Ident>, srn: Seq<Tok>) -> Seq<Tok>;
+
+pub open spec fn srn_toks(k: usize) -> Seq<Tok> { seq![Tok::Ident(construct_step_results_name_spec(k))] }
+
+/// the code of steps k, k+1, ..: step k+1 sits in the `next` slot of step k - for a try macro that slot is the `else` of
+/// the failure test (join_steps_spec), so a failed step skips ALL later steps; for every macro a step starts only after
+/// the join of the previous one has produced its results
+pub open spec fn steps_toks(jo: JoinOutput, pats: Seq<TokenStream>, vars: Seq<Ident>, fi: Seq<char>, ev: Seq<char>, k: int) -> Seq<Tok>
+    decreases jo.max_step_count - k
+{
+    if k < 0 || k >= jo.max_step_count { no_toks() }
+    else {
+        join_steps_spec(jo.config.is_try, jo.transpose, !(k < jo.max_step_count - 1), jo.branch_count as int, jo.depths@, k,
+            gen_step_toks(jo, k as usize, vars, srn_toks(k as usize)),
+            if k + 1 < jo.max_step_count { Some(steps_toks(jo, pats, vars, fi, ev, k + 1)) } else { None },
+            let_tuple(seq_toks_sep(filter_active(pats, jo.depths@, k, pats.len() as int), ','), srn_toks(k as usize)),
+            vars, srn_toks(k as usize), seq![Tok::Ident(construct_internal_value_name_spec())], fi, ev)
+    }
 }
